@@ -378,3 +378,40 @@ def r02_8(ctx):
 def r02_9(ctx):
     from .c12 import r12_2
     r12_2(ctx)
+
+
+@rule("R02.10", min_instances=4, desc="algebraic values at grid points are the interpolation polynomial through the collocation values evaluated at the point: local time 0 (constant coefficients) at interval / step starts, local time 1 (sum of the coefficients) at the final node - not a collocation value itself (Legendre points do not include the interval end)")
+def r02_10(ctx):
+    P = ctx.prog
+    f = P.own_method("DirectCollocation", "add_constraints")
+    sc = ctx.scope(f)
+    K = lambda t: Norm(None).key(ast.parse(t, mode="eval").body)
+    # the coefficient table of the algebraic basis: rows = Lagrange polynomials through the collocation points 1..degree, ascending powers (R08.3)
+    pz = [d for d in sc.defs.get("poly_z", []) if d.kind == "assign"]
+    ok = len(pz) == 1 and is_call_to(pz[0].value, "vcat") and len(pz[0].value.args) == 1
+    ctx.check(ok, "DirectCollocation algebraic basis table: one row per collocation point", detail="basis table", expected="poly_z = vcat(rows)", found=ast.unparse(pz[0].value) if pz else None, fi=f)
+    at0 = (K("poly_z[:,0]"),)
+    at1 = (K("sum2(poly_z)"), K("mtimes(poly_z, DM.ones(self.degree,1))"), K("mtimes(poly_z, DM.ones(self.degree))"))
+    apps = {"Z": [], "zk": []}
+    for c in walk_no_nested(f.node):
+        for nm in apps:
+            if is_call_to(c, "append", "self." + nm) and c.args:
+                apps[nm].append(c)
+    if len(apps["Z"]) != 2 or len(apps["zk"]) != 1:
+        raise AnalysisError("DirectCollocation.add_constraints: expected two appends to self.Z (interval starts, final node) and one to self.zk, found %d / %d" % (len(apps["Z"]), len(apps["zk"])))
+    inloop = [c for c in apps["Z"] if sc.enclosing_loops(c)]
+    final = [c for c in apps["Z"] if not sc.enclosing_loops(c)]
+    if len(inloop) != 1 or len(final) != 1:
+        raise AnalysisError("DirectCollocation.add_constraints: appends to self.Z not split into per-interval and final")
+
+    def weights(c):
+        v = c.args[0]
+        if is_call_to(v, "mtimes") and len(v.args) == 2:
+            return ast.unparse(v.args[0]), Norm(None).key(v.args[1])
+        return ast.unparse(v), None
+    for c, what, allowed, exp in ((inloop[0], "Z[k] (start of control interval k)", at0, "mtimes(Zc[k][0], poly_z[:,0])"), (apps["zk"][0], "zk (start of integrator step (k,i))", at0, "mtimes(Zc[k][i], poly_z[:,0])"),
+                                  (final[0], "Z[N] (final node)", at1, "mtimes(Zc[-1][-1], sum2(poly_z))")):
+        blk, w = weights(c)
+        ctx.check(w in allowed, "DirectCollocation %s = algebraic interpolation polynomial evaluated at that point" % what,
+                  detail="algebraic value at a grid point is not the value of the collocation polynomial there (wrong for every scheme whose points exclude that end, e.g. Legendre at the interval end)",
+                  expected=exp, found=ast.unparse(c.args[0])[:100], fi=f, node=c, sample={"point": what, "weights": w})
